@@ -825,6 +825,7 @@ class Ev:
         self.ids = {}  # python id -> IdV, for id(x) used as dictionary keys
         self.input_reply = None  # what input() answers (Str), when the evaluated code may ask the user
         self.loop_budget = 200
+        self.step_budget = 60000  # statements one evaluation may execute: a search whose frontier keeps growing ends here
         self.module_cache = {}
         self.class_attrs = {}
         self.memo_calls = {}
@@ -1431,6 +1432,9 @@ class Ev:
             raise AnalysisError("assignment target %s" % norm(target))
 
     def stmt(self, st, env, mod):
+        self.steps = getattr(self, "steps", 0) + 1
+        if self.steps > self.step_budget:
+            raise NonTermination("more than %d statements evaluated (line %d)" % (self.step_budget, getattr(st, "lineno", 0)))
         if isinstance(st, ast.Expr):
             if isinstance(st.value, ast.Constant):
                 return None
@@ -1733,6 +1737,9 @@ class Ev:
                 return
             g = gens[i]
             for x in self.iterate(self.ev(g.iter, e, mod), g.iter):
+                self.steps = getattr(self, "steps", 0) + 1
+                if self.steps > self.step_budget:
+                    raise NonTermination("more than %d steps evaluated (comprehension at line %d)" % (self.step_budget, getattr(g.iter, "lineno", 0)))
                 e2 = {"__outer__": e, "__mod__": mod}
                 self.assign(g.target, x, e2, mod)
                 if all(self.truth(self.ev(c, e2, mod), c) for c in g.ifs):
